@@ -422,8 +422,27 @@ impl WalWriter {
         #[cfg(feature = "verif-hooks")]
         crate::verif_hooks::crash_point("rot.sync");
 
-        // Rename to timestamped file
-        let timestamp = current_timestamp();
+        // Rename to timestamped file. The name must be unused and sort after every earlier
+        // rotated file: two rotations within one second would otherwise share a name and the
+        // rename would silently replace the older file.
+        let mut timestamp = current_timestamp();
+        if let Some(dir) = self.path.parent()
+            && let Ok(entries) = std::fs::read_dir(dir)
+        {
+            for entry in entries.flatten() {
+                let name = entry.file_name();
+                let newest = name
+                    .to_str()
+                    .and_then(|n| n.strip_prefix("wal."))
+                    .and_then(|n| n.strip_suffix(&format!(".{WAL_EXTENSION}")))
+                    .and_then(|n| n.parse::<u64>().ok());
+                if let Some(existing) = newest
+                    && existing >= timestamp
+                {
+                    timestamp = existing + 1;
+                }
+            }
+        }
         let rotated_path = self
             .path
             .with_file_name(format!("wal.{timestamp}.{WAL_EXTENSION}"));
